@@ -8,6 +8,11 @@ CHECKS = {
    text="Exhaustive enumeration of every capacity 0..=254, every ring phase, every constructor/start index and every observer incl. every iterator split (thorough; quick: stratified capacities), plus proptest op-sequence histories on u32 and Box<u32> elements. Complete for the default PeriodType because Window behaviour depends only on (capacity, index).",
    note="Trusted: the VecDeque model, serde_json; labels stand for all values (parametricity). Wide PeriodType builds are covered by C20.",
    ref="DESIGN.md §5 C01"),
+ "C16": dict(
+   technique="exhaustive enumeration with validity-predicate oracles (all actions, pairs, triples, i8, all 2^32 f32; boundary-focused f64)",
+   text="All 513 actions, all 263 169 pairs, all 513^3 triples and all i8 are enumerated in both tiers; the thorough tier converts every one of the 2^32 f32 bit patterns (quick: every 61st magnitude plus +-64 patterns around each rounding boundary), f64 on +-4 ulp neighbourhoods of every k/255 and (k+0.5)/255 plus seeded random patterns. Complete for the finite parts of the quantifier.",
+   note="Oracle: signed-strength lattice model and float validity predicates (total, sign, monotone, nearest step, saturation). Known finding: Eq/Ord disagree on {Buy(0), Sell(0)} (listed in known_findings.txt).",
+   ref="DESIGN.md §5 C16"),
 }
 
 PENDING = {
